@@ -270,6 +270,9 @@ deriving Repr
 
 /-- the world outside the project file: one repository, what each tagged (or pseudo-) version declares, the
 tag list in `repo.Versions()` order, and what a ref query resolves to (a parameter, see DESIGN.md §5) -/
+/- `tags`: only tags that are canonical versions. `taggedVersions` (resolver.go) drops the valid-but-not-canonical ones
+   (v1.3, v1.3.0+build) before any query, `Reqs.Upgrade` or `Reqs.Previous` sees them (D30; tie `raw_tag_readers_ok`);
+   the revision lookup of a requirement reads the raw list but matches a canonical version exactly. -/
 structure Env where
   repo : String
   summary : Mod → Option Summary
